@@ -51,6 +51,8 @@ class _Backend(http.server.BaseHTTPRequestHandler):
         body = b"x" * 20000
         if self.path == "/slowhdr":
             time.sleep(1.2)
+        if self.path == "/verylong":
+            time.sleep(7)
         self.send_response(200); self.send_header("Content-Length", str(len(body))); self.end_headers()
         if self.path == "/slowbody":
             self.wfile.write(body[:10000]); self.wfile.flush(); time.sleep(1.2); self.wfile.write(body[10000:])
@@ -107,7 +109,7 @@ def process_cases(sd, pcs):
                     res["err"] = str(e)
             th = None
             if c["point"] != "idle":
-                th = threading.Thread(target=client, args=("/slowhdr" if c["point"] == "before_headers" else "/slowbody",))
+                th = threading.Thread(target=client, args=({"before_headers": "/slowhdr", "outlasts": "/verylong"}.get(c["point"], "/slowbody"),))
                 th.start()
                 time.sleep(0.5)
             t0 = time.time()
